@@ -578,29 +578,46 @@ def r5_limit(ctx, rid="C14.R5"):
     ctx.check(R, "page_limit-reads-limit", f.id in readers, "page_limit reads pag_params.limit", f)
     summ = {"std::num::NonZero::<T>::get": lambda it, argv, t: it.deref_all(argv[0])}
 
-    def run(order, limit):
-        it = A.Interp(ctx.ds, order, summaries=summ, sym_types=(r"^std::num::NonZero<u\d+>$", r"^u\d+$", r"^usize$"))
+    # logging and formatting do not take part in the computation: their callees are opaque, and a branch on an opaque
+    # value (the log-level test of a slog macro) is explored both ways
+    LOGGING = [r"^slog::", r"<slog::", r"^core::fmt::", r"^std::fmt::", r"^alloc::fmt::"]
+
+    def run(order, limit, ch=()):
+        it = A.Interp(ctx.ds, order, summaries=summ, opaque_callees=LOGGING, sym_types=(r"^std::num::NonZero<u\d+>$", r"^u\d+$", r"^usize$"), choices=ch)
         config = _mk_struct(ctx, "server::ServerConfig", {"page_max_nitems": A.V_sym("max"), "page_default_nitems": A.V_sym("default")})
         state = _mk_struct(ctx, "server::DropshotState", {"config": config})
-        rq = _mk_struct(ctx, "handler::RequestContext", {"server": state})
+        rq = _mk_struct(ctx, "handler::RequestContext", {"server": state, "log": A.V_opaque("log")})
         pp = _mk_struct(ctx, PARAMS_ADT, {"limit": limit})
-        return A.strip(it.call_fn(f, [A.V_ref(A.Cell(rq)), A.V_ref(A.Cell(pp))])), it
+        try:
+            return it, A.strip(it.call_fn(f, [A.V_ref(A.Cell(rq)), A.V_ref(A.Cell(pp))]))
+        except A.LeavesFragment as e:
+            return it, "interpreter aborted: %s" % e
+
+    def outcomes(order, limit):
+        last = []
+        def go(ch):
+            it, res = run(order, limit, ch)
+            last[:] = [it]
+            return it, res
+        try:
+            return A.explore(go), last[0]
+        except A.LeavesFragment as e:
+            return ["interpreter aborted: %s" % e], (last[0] if last else None)
+
+    def is_min(got, order):
+        return isinstance(got, tuple) and got[0] == "enum" and got[1] == "Ok" and len(got[2]) == 1 and got[2][0][0] == "sym" and got[2][0][1] in ("l", "max") \
+            and order[got[2][0][1]] == min(order["l"], order["max"])
     for order in A.weak_orders(["l", "max", "default"]):
         key = "page_limit(Some(l)) under %s" % A.order_str(order)
-        try:
-            got, it = run(order, A.V_some(A.V_sym("l")))
-            ok = got[0] == "enum" and got[1] == "Ok" and len(got[2]) == 1 and got[2][0][0] == "sym" and got[2][0][1] in ("l", "max") \
-                and order[got[2][0][1]] == min(order["l"], order["max"])
-            ctx.check(R, key, ok, "code=%s spec=Ok(min(l,max)) (%s)" % (A.show(_unstrip(got)), it.cmp_log), f)
-        except A.LeavesFragment as e:
-            ctx.check(R, key, False, "interpreter aborted: %s" % e, f)
+        gots, it = outcomes(order, A.V_some(A.V_sym("l")))
+        ok = bool(gots) and all(is_min(g, order) for g in gots)
+        shown = [A.show(_unstrip(g)) if isinstance(g, tuple) else g for g in gots]
+        ctx.check(R, key, ok, "code=%s on %d path(s) spec=Ok(min(l,max)) (%s)" % (sorted(set(shown)), len(gots), it.cmp_log if it else ""), f)
     for order in A.weak_orders(["max", "default"]):
         key = "page_limit(None) under %s" % A.order_str(order)
-        try:
-            got, it = run(order, A.V_none())
-            ctx.check(R, key, got == ("enum", "Ok", (("sym", "default"),)), "code=%s spec=Ok(default)" % A.show(_unstrip(got)), f)
-        except A.LeavesFragment as e:
-            ctx.check(R, key, False, "interpreter aborted: %s" % e, f)
+        gots, it = outcomes(order, A.V_none())
+        shown = [A.show(_unstrip(g)) if isinstance(g, tuple) else g for g in gots]
+        ctx.check(R, key, bool(gots) and all(g == ("enum", "Ok", (("sym", "default"),)) for g in gots), "code=%s on %d path(s) spec=Ok(default)" % (sorted(set(shown)), len(gots)), f)
     ctx.assume("NonZeroU32's Ord is the numeric order of its value; serde's Deserialize for NonZeroU32 refuses 0, negative and non-numeric text")
 
 
